@@ -183,14 +183,39 @@ func validOptionalPort(port string) bool {
 // 当语法错误时，会触发 panic，可通过 [CheckSyntax] 检测语法的正确性。
 func (hs *Hosts) Add(domain ...string) {
 	for _, d := range domain {
-		err := hs.tree.Add(strings.ToLower(d), hs.emptyHandlerFunc, nil, http.MethodGet)
+		err := hs.tree.Add(lowerDomain(d), hs.emptyHandlerFunc, nil, http.MethodGet)
 		if err != nil {
 			panic(err)
 		}
 	}
 }
 
-func (hs *Hosts) Delete(domain string) { hs.tree.Remove(strings.ToLower(domain)) }
+func (hs *Hosts) Delete(domain string) { hs.tree.Remove(lowerDomain(domain)) }
+
+// 将域名转换为小写
+//
+// {} 中的内容为参数名以及约束规则，是区分大小写的，比如 \D 与 \d 含义并不相同，不作转换。
+func lowerDomain(domain string) string {
+	var sb strings.Builder
+	for domain != "" {
+		start := strings.IndexByte(domain, '{')
+		if start < 0 {
+			sb.WriteString(strings.ToLower(domain))
+			break
+		}
+		sb.WriteString(strings.ToLower(domain[:start]))
+
+		end := strings.IndexByte(domain[start:], '}')
+		if end < 0 {
+			sb.WriteString(domain[start:])
+			break
+		}
+		end += start + 1
+		sb.WriteString(domain[start:end])
+		domain = domain[end:]
+	}
+	return sb.String()
+}
 
 func (hs *Hosts) emptyHandlerFunc() {}
 
